@@ -89,10 +89,12 @@ Proof. exact retry_timing. Qed.
 Print Assumptions C14_retry_timing.
 
 (* ---- 6. the retry delay -------------------------------------------------------------------------------- *)
+(* ns is the NoSleep flag: the idle loop sleeps until the armed instant; with a retry delay of zero that
+   instant is not in the future, the sleep returns at once and the loop runs again in the same instant *)
 Theorem C14_retry_delay_set : forall cfg s r s' ns o,
   end_unsol cfg s false r = (s', ns, o) -> r <> UrConfirmed ->
-  s_unsol s' = UReady (Some (s_now s + o_retry_delay_ms cfg)%Z) /\ s_control s' = CIdle /\ ns = false /\
-  o = [ODb DbReset].
+  s_unsol s' = UReady (Some (s_now s + o_retry_delay_ms cfg)%Z) /\ s_control s' = CIdle /\
+  ns = (o_retry_delay_ms cfg <=? 0)%Z /\ o = [ODb DbReset].
 Proof. exact retry_delay_set. Qed.
 Print Assumptions C14_retry_delay_set.
 
